@@ -40,8 +40,11 @@ def src_lists(s):
     """Python lists of the scores the object was *constructed from* (unsorted snapshot)
     if the constructor monitor saw it, else of its current arrays."""
     snap = getattr(s, "_vmon_src", None)
-    if snap is not None:
+    held = getattr(s, "_vmon_arrs", None)
+    if snap is not None and (held is None or (s.pos is held[0] and s.neg is held[1])):
         return snap
+    # never seen by the constructor monitor, or its score arrays were replaced afterwards through the public attributes
+    # (Scores.pos/neg, FraudScores.genuines/frauds setters): the current arrays are what it now consists of
     return np.asarray(s.pos).tolist(), np.asarray(s.neg).tolist()
 
 
@@ -63,6 +66,7 @@ def install_ctor_snapshot(sess):
             sess.skip("M-ctor", "non-1d or non-finite")
             return
         self._vmon_src = (p.tolist(), n.tolist())
+        self._vmon_arrs = (self.pos, self.neg)
         claimed_sorted = bool(kwargs.get("is_sorted", False))
         asc = bool(np.all(self.pos[1:] >= self.pos[:-1])) and bool(np.all(self.neg[1:] >= self.neg[:-1]))
         if claimed_sorted and type(self).__name__ == "GroupScores":
@@ -1111,7 +1115,8 @@ def judge_ipl(sess, x, y, t, res, monitor="M-ipl"):
         entries = res
     xl, yl = x.tolist(), y.tolist()
     ymin, ymax = min(yl), max(yl)
-    scale = max(1.0, max(abs(v) for v in yl))
+    # residual tolerance: relative to the amplitude of the samples (rates of 1e-9 are data, too) plus rounding at their magnitude
+    scale = (max(yl) - min(yl)) + 1.6e10 * float(np.spacing(max(abs(v) for v in yl) + 1e-300))
     xs_scale = max(1.0, abs(xl[0]), abs(xl[-1]))
     n = len(xl)
     for tv, s in zip(ts, entries):
@@ -1168,7 +1173,7 @@ def judge_ipl_large(sess, x, y, t, res, monitor="M-ipl"):
     ts = np.atleast_1d(np.asarray(t, dtype=float))
     if not sess.check(monitor, isinstance(res, list) and len(res) == len(ts), "one entry per target expected", lambda: {"len_targets": len(ts)}, key="ipl-len"):
         return
-    scale = max(1.0, float(np.abs(y).max()))
+    scale = float(np.ptp(y)) + 1.6e10 * float(np.spacing(float(np.abs(y).max()) + 1e-300))
     dx = np.diff(x)
     slope = float(np.max(np.abs(np.diff(y))[dx > 0] / dx[dx > 0])) if np.any(dx > 0) else 0.0
     tol = 1e-9 * scale + 8 * slope * np.spacing(max(1.0, abs(x[0]), abs(x[-1])))
